@@ -21,8 +21,16 @@ CHECKS = {
     'C04': ('dbmc', 'Same state space as C01; every jobs-row state change is observed at row-update granularity inside the SQL interpreter and judged against the allowed lifecycle relation; group tallies recomputed in every state.', DB, DBT),
     'C06': ('dbmc', 'Same state space as C01; completion flags, n_jobs and tallies of the batch and every visible group recomputed from job states in every state, also through the real readers _get_batch/_get_job_group.', DB, DBT),
     'C41': ('dbmc', 'Same state space as C01 with the second update committed late or never; jobs of uncommitted updates must stay Pending, never get attempts (the real scheduler sweep is a transition), and never influence counters, tallies or completion (C01/C06 recomputations restricted to committed updates).', DB, DBT),
+    'C05': ('dbmc', 'Every job DAG on 3 (thorough: 4) jobs x every split of the jobs over update 1 / update 2 x always-run choices; for each program every interleaving (to the depth bound) of the requests of the second update, committed at every possible point, with real scheduler sweeps, success/failure reports and canceller sweeps; readiness gating, cancelled-flag propagation and never-stuck-Pending judged on every row change and state.', DB, DBT),
+    'C07': ('dbmc', 'Group trees root>g1>g2 with a sibling; cancellation of any group in any order incl. sub-group before ancestor and repeats, interleaved with real scheduler/canceller sweeps, worker reports and a client submitting groups/jobs/updates beneath the groups; confinement, rejection-without-effect, idempotence, unaffected siblings and error-free scheduling requests judged on every transition.', DB, DBT),
+    'C11': ('benum', 'The real PoolScheduler._compute_fair_share on every multiset of <=4 (thorough 5) users over a demand grid x free-core values incl. zero/negative, in several record orders, against exact rational water-filling.', BE, BET),
+    'C12': ('benum', 'Every request of a cpu x memory x storage x preemptible x label / machine-type grid through the real front_end._create_jobs pre-processing and InstanceCollectionConfigs.select_inst_coll for every pool deployment the driver admits on gcp and azure; accept side against the statement, reject side against an independent brute force.', BE, BET),
+    'C13': ('benum', 'Real GCP/Azure instance configs for every admitted pool shape and machine type x disks x locations; all multisets of power-of-two job sizes packed on one worker summed per resource against the whole-worker billing; to_dict/JSON/from_dict reload bills identically.', BE, BET),
+    'C15': ('benum', 'Every job spec built from the validator facet table x every batch format version through db_spec/JSON/get_spec_*; every region subset of tables up to 10 (thorough 16) regions plus single/pair/complement sets up to 63 regions through the bitset helpers.', BE, BET),
     'C16': ('vloop', 'Every order of runnable event-loop callbacks of the real FIFOWeightedSemaphore for every configuration of 2-3 (thorough: 4) jobs, weights 1..3, capacity 3, judged against a FIFO reference model at every step.', VL + ' Bodies do not raise or get cancelled.', VLT),
     'C17': ('benum', 'Every labelled dependency digraph on <=3 (thorough 4) DSL jobs (explicit and resource-induced edges, all creation orders, always_run vectors, failing subsets, set iteration orders) through the real Batch/LocalBackend with only subprocess replaced by a recorder.', BE, BET),
+    'C22': ('vloop', 'Real Copier/Transfer over real LocalAsyncFS+RouterAsyncFS in a scratch directory on a virtual loop with every thread-pool call a schedulable step; source-tree grammar x file sizes around part boundaries x destination states x treat_dest_as modes x 1-2 transfers; all schedules with <=1 (thorough: 2 for a subset) deviations incl. task-starvation deviations; reference model of the destination rules.', VL, VLT),
+    'C23': ('benum', 'Every (size, start, length, read pattern) up to size 6 (thorough 12) on the four real backends (local files; GCS/S3/Azure clients over fakes of the documented wire semantics) against Python slice semantics.', BE + ' The cloud fakes encode the documented range semantics of each service.', BET),
     'C18': ('benum', 'Every pipeline of <=3 bash/python jobs over the resource kinds of the statement and all read wirings through the real DSL and ServiceBackend._async_run with a recording batch client; plumbing read off what was submitted.', BE, BET),
 }
 
